@@ -1,7 +1,554 @@
-//! C11 — not built yet.
-use vcore::Ctx;
+//! C11 — request checking work is polynomial in the document size.
+//!
+//! Observation: the `verif-hooks` work counter (`async_graphql::verif_hooks::WORK`: one unit per selection visited
+//! by the validation visitors, by the recursion-depth / directive-limit walkers and by the field-conflict search)
+//! read after `Schema::execute` of a request that is rejected by a limit or trivially executed.
+//! Oracle: (a) WORK <= 64 * size^2 (size = document bytes); (b) doubling a family parameter multiplies WORK by at
+//! most 8. Parsing has no counter: its wall time is recorded as a note, never judged.
+use crate::execcmp::*;
+use async_graphql::verif_hooks::WORK;
+use indexmap::IndexMap;
+use std::sync::atomic::Ordering;
+use std::time::Instant;
+use vcore::{Case, Ctx};
+use vgql::ast::*;
+use vgql::coerce::CV;
+use vgql::gensch::*;
+use vgql::gentyped::*;
+use vgql::measures::{inlined_selections, written_selections};
+use vgql::print::print_plain;
+use vgql::sch::Sch;
+use vgql::world::*;
+use vschemas::dynbuild::build_dynamic;
+use vschemas::rt::Rt;
+use vschemas::z::{build_z, z_sch};
 
-pub fn run(_ctx: &mut Ctx) {
-    eprintln!("C11: check not built yet");
-    std::process::exit(2);
+mod d {
+    use async_graphql::*;
+    pub struct NoOp;
+    impl CustomDirective for NoOp {}
+    /// repeatable no-op field directive (long directive lists need a repeatable directive to be valid)
+    #[Directive(location = "Field", repeatable)]
+    pub fn noop() -> impl CustomDirective {
+        NoOp
+    }
 }
+
+#[derive(Clone, Copy, Debug)]
+struct Limits {
+    depth: usize,
+    complexity: usize,
+    nesting: usize,
+    directives: usize,
+}
+
+/// what one execution cost
+struct Obs {
+    work: u64,
+    errors: Vec<String>,
+    wall_ns: u128,
+}
+
+const LIMIT_MESSAGES: [&str; 4] = ["Query is too complex.", "Query is nested too deep.", "The recursion depth of the query cannot be greater than", "The number of directives on the field"];
+
+impl Obs {
+    /// rejected by a limit, or executed (field errors of the execution carry a path; request errors do not)
+    fn limit_or_executed(&self) -> bool {
+        self.errors.is_empty() || self.errors.iter().all(|e| LIMIT_MESSAGES.iter().any(|m| e.starts_with(m)))
+    }
+}
+
+/// schema P of the adversarial families (dynamic): self-referential object, a field with 256 arguments, a list argument
+fn p_sch() -> Sch {
+    let args: Vec<String> = (0..256).map(|i| format!("a{}: Int", i)).collect();
+    let sdl = format!("type Query {{ n: Int m: Int s: String q: Query qs: [Query] f({}): Int l(xs: [Int]): Int }}", args.join(", "));
+    vgql::sch::from_sdl_text(&sdl).expect("schema P")
+}
+
+fn p_world() -> World {
+    let mut fields = IndexMap::new();
+    fields.insert("n".to_string(), WVal::Int(1));
+    fields.insert("m".to_string(), WVal::Int(2));
+    fields.insert("s".to_string(), WVal::Str("s".into()));
+    fields.insert("q".to_string(), WVal::Ref(0));
+    fields.insert("qs".to_string(), WVal::List(vec![WVal::Ref(0)]));
+    fields.insert("f".to_string(), WVal::Int(3));
+    fields.insert("l".to_string(), WVal::Int(4));
+    World { nodes: vec![Node { ty: "Query".into(), fields }], query_root: 0, ..World::default() }
+}
+
+fn measure_work<F: std::future::Future<Output = async_graphql::Response>>(f: F) -> Obs {
+    WORK.store(0, Ordering::SeqCst);
+    let t0 = Instant::now();
+    let resp = vcore::det::block_on(f);
+    let wall_ns = t0.elapsed().as_nanos();
+    let work = WORK.load(Ordering::SeqCst);
+    // request-level errors have no path
+    Obs { work, errors: resp.errors.iter().filter(|e| e.path.is_empty()).map(|e| e.message.clone()).collect(), wall_ns }
+}
+
+fn exec_dynamic(sch: &Sch, world: &World, text: &str, vars: &IndexMap<String, CV>, op: Option<&str>, l: Limits) -> Result<Obs, String> {
+    let rt = Rt::new(world.clone());
+    rt.logging.store(false, Ordering::Relaxed);
+    let schema = build_dynamic(sch, &rt, |b| b.limit_depth(l.depth).limit_complexity(l.complexity).limit_recursive_depth(l.nesting).limit_directives(l.directives)).map_err(|e| format!("HARNESS: schema does not build: {}", e))?;
+    Ok(measure_work(schema.execute(request(text, vars, op))))
+}
+
+fn exec_z(world: &World, text: &str, vars: &IndexMap<String, CV>, op: Option<&str>, l: Limits) -> Obs {
+    let schema = build_z(|b| b.directive(d::noop).limit_depth(l.depth).limit_complexity(l.complexity).limit_recursive_depth(l.nesting).limit_directives(l.directives));
+    let rt = Rt::new(world.clone());
+    rt.logging.store(false, Ordering::Relaxed);
+    measure_work(schema.execute(request(text, vars, op).data(rt)))
+}
+
+/// One measured document.
+struct Sample {
+    p: usize,
+    size: u64,
+    work: u64,
+    /// selections met when every operation is written out inline (what a walker without memory visits)
+    inlined: u64,
+    spreads: u64,
+}
+
+fn bound(size: u64) -> u64 {
+    64u64.saturating_mul(size).saturating_mul(size)
+}
+
+/// (a) and (b) over the values `w` of a ladder p, 2p, 4p, ...
+fn within_spec(samples: &[Sample], w: &dyn Fn(&Sample) -> u64) -> Result<(), String> {
+    for s in samples {
+        if w(s) > bound(s.size) {
+            return Err(format!("p={}: {} units of checking work for {} bytes exceed 64*size^2 = {}", s.p, w(s), s.size, bound(s.size)));
+        }
+    }
+    for pair in samples.windows(2) {
+        let (a, b) = (&pair[0], &pair[1]);
+        if b.p == 2 * a.p && w(b) > 8 * w(a).max(1) {
+            return Err(format!("doubling the parameter {} -> {} multiplies the checking work {} -> {} (x{:.1} > 8)", a.p, b.p, w(a), w(b), w(b) as f64 / w(a).max(1) as f64));
+        }
+    }
+    Ok(())
+}
+
+/// Known-findings protocol. The quirks: C11-F1 = `check_recursive_depth` and `check_max_directives` follow every
+/// spread (each costs exactly the inlined selection count); C11-F2 = the inline-mode validation visitors do the
+/// same (once for the three of them). What remains after subtracting the work predicted by the open quirks must meet
+/// the specification.
+fn judge(ctx_open: (bool, bool), rendered: String, samples: &[Sample]) -> Case {
+    match within_spec(samples, &|s| s.work) {
+        Ok(()) => Case::pass(rendered),
+        Err(why) => {
+            let factor = if ctx_open.0 { 2 } else { 0 } + if ctx_open.1 { 1 } else { 0 };
+            if factor == 0 {
+                return Case::fail(rendered, why);
+            }
+            if let Some(s) = samples.iter().find(|s| s.work < factor * s.inlined) {
+                return Case::fail(rendered, format!("{}; and the open findings predict at least {} units at p={}, observed {}", why, factor * s.inlined, s.p, s.work));
+            }
+            match within_spec(samples, &|s| s.work - factor * s.inlined) {
+                Ok(()) => {
+                    let mut ids = vec![];
+                    if ctx_open.0 {
+                        ids.push("C11-F1".to_string());
+                    }
+                    if ctx_open.1 {
+                        ids.push("C11-F2".to_string());
+                    }
+                    Case::known(rendered, ids)
+                }
+                Err(rest) => Case::fail(rendered, format!("{}; not explained by the open findings: after subtracting {} x inlined selections: {}", why, factor, rest)),
+            }
+        }
+    }
+}
+
+#[derive(Clone, Copy, Debug, PartialEq)]
+enum Family {
+    WideAliases,
+    DeepInline,
+    DeepFields,
+    ManyOperations,
+    ManyFragments,
+    FragmentTriangle,
+    LongDirectives,
+    LargeArguments,
+    FanOutTwoLevels,
+    /// k spreads per level, p levels: the construct of C11-F1 / C11-F2
+    FanOutChain,
+}
+const POLY_FAMILIES: [Family; 9] = [
+    Family::WideAliases,
+    Family::DeepInline,
+    Family::DeepFields,
+    Family::ManyOperations,
+    Family::ManyFragments,
+    Family::FragmentTriangle,
+    Family::LongDirectives,
+    Family::LargeArguments,
+    Family::FanOutTwoLevels,
+];
+
+impl Family {
+    /// largest parameter used (deep families stay within 64 levels)
+    fn cap(self) -> usize {
+        match self {
+            Family::DeepInline | Family::DeepFields => 64,
+            Family::LargeArguments | Family::FanOutTwoLevels => 256,
+            Family::FanOutChain => 20,
+            _ => 1024,
+        }
+    }
+    fn on_z(self) -> bool {
+        self == Family::LongDirectives
+    }
+}
+
+#[derive(Clone, Copy, Debug)]
+struct Knobs {
+    /// width: fields per level / repetitions / spreads per level
+    w: usize,
+    variant: usize,
+}
+
+/// (document, operation name)
+fn family_doc(f: Family, p: usize, k: Knobs) -> (String, Option<String>) {
+    let mut t = String::new();
+    let w = k.w.max(1);
+    match f {
+        Family::WideAliases => {
+            t.push('{');
+            for i in 0..p {
+                match k.variant % 3 {
+                    // many aliases of the same field, with sub-selections
+                    0 => t.push_str(&format!(" a{}: q {{ n m }}", i)),
+                    // the same response key over and over (merged by the executor)
+                    1 => t.push_str(" q { n q { m } }"),
+                    _ => t.push_str(&format!(" a{}: q {{ n }} q {{ b{}: n }}", i % w, i)),
+                }
+            }
+            t.push_str(" }");
+        }
+        Family::DeepInline => {
+            t.push('{');
+            for i in 0..p {
+                t.push_str(if k.variant % 2 == 0 { " ... on Query {" } else { " ... {" });
+                for j in 0..w {
+                    t.push_str(&format!(" x{}_{}: n", i, j));
+                }
+            }
+            t.push_str(" m");
+            for _ in 0..p {
+                t.push_str(" }");
+            }
+            t.push_str(" }");
+        }
+        Family::DeepFields => {
+            t.push('{');
+            for i in 0..p {
+                if k.variant % 2 == 0 {
+                    t.push_str(" q {");
+                } else {
+                    t.push_str(&format!(" a{}: q {{", i));
+                }
+                for j in 0..w {
+                    t.push_str(&format!(" x{}: n", j));
+                }
+            }
+            t.push_str(" m");
+            for _ in 0..p {
+                t.push_str(" }");
+            }
+            t.push_str(" }");
+        }
+        Family::ManyOperations => {
+            for i in 0..p {
+                t.push_str(&format!("query Q{} {{ n q {{ m }} }}\n", i));
+            }
+            return (t, Some(format!("Q{}", k.variant % p)));
+        }
+        Family::ManyFragments => {
+            t.push('{');
+            for i in 0..p {
+                for _ in 0..w {
+                    t.push_str(&format!(" ...F{}", i));
+                }
+            }
+            t.push_str(" }\n");
+            for i in 0..p {
+                t.push_str(&format!("fragment F{} on Query {{ n q {{ m }} }}\n", i));
+            }
+        }
+        Family::FragmentTriangle => {
+            // the operation spreads every fragment, every fragment spreads the next one: p^2/2 selections inline
+            t.push('{');
+            for i in 0..p {
+                t.push_str(&format!(" ...F{}", i));
+            }
+            t.push_str(" }\n");
+            for i in 0..p {
+                if i + 1 < p {
+                    t.push_str(&format!("fragment F{} on Query {{ n ...F{} }}\n", i, i + 1));
+                } else {
+                    t.push_str(&format!("fragment F{} on Query {{ n }}\n", i));
+                }
+            }
+        }
+        Family::LongDirectives => {
+            // schema Z
+            t.push('{');
+            for j in 0..w {
+                t.push_str(&format!(" d{}: n", j));
+                for _ in 0..p {
+                    t.push_str(" @noop");
+                }
+            }
+            t.push_str(" }");
+        }
+        Family::LargeArguments => {
+            t.push_str("{ f(");
+            for i in 0..p.min(256) {
+                t.push_str(&format!("a{}: {} ", i, i));
+            }
+            t.push_str(") l(xs: [");
+            for i in 0..p * w {
+                t.push_str(&format!("{} ", i));
+            }
+            t.push_str("]) }");
+        }
+        Family::FanOutTwoLevels => {
+            t.push('{');
+            for _ in 0..p {
+                t.push_str(" ...A");
+            }
+            t.push_str(" }\nfragment A on Query {");
+            for _ in 0..p {
+                t.push_str(" ...B");
+            }
+            t.push_str(" }\nfragment B on Query { n }\n");
+        }
+        Family::FanOutChain => {
+            let spreads = w.max(2);
+            t.push_str("{ ...F0 }\n");
+            for i in 0..p {
+                t.push_str(&format!("fragment F{} on Query {{", i));
+                if i + 1 < p {
+                    for _ in 0..spreads {
+                        t.push_str(&format!(" ...F{}", i + 1));
+                    }
+                } else {
+                    t.push_str(" n");
+                }
+                t.push_str(" }\n");
+            }
+        }
+    }
+    (t, None)
+}
+
+struct Env {
+    psch: Sch,
+    pworld: World,
+    zworld: World,
+}
+
+fn count_spreads(doc: &Doc) -> u64 {
+    fn go(s: &SelSet) -> u64 {
+        s.items
+            .iter()
+            .map(|i| match i {
+                Selection::Field(f) => go(&f.sel),
+                Selection::Inline(i) => go(&i.sel),
+                Selection::Spread(_) => 1,
+            })
+            .sum()
+    }
+    doc.defs
+        .iter()
+        .map(|d| match d {
+            Def::Op(o) => go(&o.sel),
+            Def::Frag(f) => go(&f.sel),
+        })
+        .sum()
+}
+
+#[derive(Default)]
+struct Timing {
+    /// worst parse time per byte and worst execute time per unit of work (secondary evidence)
+    parse_ns_per_byte: f64,
+    parse_worst: String,
+    exec_ns_per_work: f64,
+    exec_worst: String,
+}
+
+fn sample(env: &Env, f: Family, p: usize, k: Knobs, l: Limits, timing: &std::cell::RefCell<Timing>) -> Result<Sample, String> {
+    let (text, op) = family_doc(f, p, k);
+    let doc = vgql::refparse::parse_executable(&text, &vgql::refparse::Opts::default()).map_err(|e| format!("HARNESS: family document does not parse: {}", e.msg))?;
+    let t0 = Instant::now();
+    let parsed = async_graphql_parser::parse_query(&text);
+    let parse_ns = t0.elapsed().as_nanos() as f64;
+    if parsed.is_err() {
+        return Err("HARNESS: family document rejected by the parser".into());
+    }
+    let none = IndexMap::new();
+    let obs = if f.on_z() { exec_z(&env.zworld, &text, &none, op.as_deref(), l) } else { exec_dynamic(&env.psch, &env.pworld, &text, &none, op.as_deref(), l)? };
+    if !obs.limit_or_executed() {
+        return Err(format!("HARNESS: family document is not valid: {:?}", obs.errors.iter().take(2).collect::<Vec<_>>()));
+    }
+    {
+        let mut t = timing.borrow_mut();
+        let per_byte = parse_ns / text.len().max(1) as f64;
+        if text.len() >= 512 && per_byte > t.parse_ns_per_byte {
+            t.parse_ns_per_byte = per_byte;
+            t.parse_worst = format!("{:?} p={} bytes={}", f, p, text.len());
+        }
+        let per_work = obs.wall_ns as f64 / obs.work.max(1) as f64;
+        if obs.work >= 1000 && per_work > t.exec_ns_per_work {
+            t.exec_ns_per_work = per_work;
+            t.exec_worst = format!("{:?} p={} work={}", f, p, obs.work);
+        }
+    }
+    let inlined: u64 = doc.ops().map(|o| inlined_selections(&doc, &o.sel)).fold(0u64, |a, b| a.saturating_add(b));
+    Ok(Sample { p, size: text.len() as u64, work: obs.work, inlined, spreads: count_spreads(&doc) })
+}
+
+fn ladder_case(env: &Env, open: (bool, bool), f: Family, ps: &[usize], k: Knobs, l: Limits, timing: &std::cell::RefCell<Timing>) -> Case {
+    let mut samples = vec![];
+    for p in ps {
+        match sample(env, f, *p, k, l, timing) {
+            Ok(s) => samples.push(s),
+            Err(e) => return Case::fail(format!("family={:?} p={} {:?} {:?}", f, p, k, l), e),
+        }
+    }
+    let head = family_doc(f, ps[0], k).0;
+    let rendered = format!(
+        "family={:?} {:?} {:?}\n(p, bytes, work, inlined selections) = {:?}\nfirst document: {}",
+        f,
+        k,
+        l,
+        samples.iter().map(|s| (s.p, s.size, s.work, s.inlined)).collect::<Vec<_>>(),
+        vcore::drive::truncate(&head, 400)
+    );
+    let last = samples.last().unwrap();
+    let nontrivial = last.size >= 512 && last.spreads >= 2;
+    judge(open, rendered, &samples).nontrivial(nontrivial).class(format!("family-{:?}", f)).class_if(last.size >= 4096, "document>=4KiB")
+}
+
+pub fn run(ctx: &mut Ctx) {
+    ctx.rule = "requests that are rejected by a limit or trivially executed, on schemas with depth, complexity, recursion and directive limits configured: (1) random valid typed \
+                documents on static schema Z and on random dynamic schemas; (2) parameterised adversarial families (wide aliases / repeated response keys, deep inline fragments <= 64, \
+                deep fields <= 64, many operations, many fragments, fragment triangle, long directive lists, large argument lists, two-level fragment fan-out) at p, 2p, 4p with \
+                random width / variant / limits; the verif-hooks work counter is read after Schema::execute; WORK <= 64*bytes^2 and doubling p multiplies WORK by <= 8. \
+                Non-trivial = document >= 512 bytes with >= 2 fragment spreads; distinct by rendered case"
+        .into();
+    ctx.assume("work = the verif-hooks counter (selections visited by validation visitors, by check_recursive_depth / check_max_directives and by the field-conflict search); parsing and the rules' own bookkeeping have no counter: parse time per byte and execute time per unit of work are recorded as notes and never judged");
+    ctx.assume("family parameters are capped (fan-out chains at 2^20 inlined selections) so that an exponential member costs well below a second");
+    ctx.assume("the bound 64*size^2 and the factor 8 per doubling are DESIGN's reading of 'polynomial'; a family with a fixed number (>= 3) of fan-out levels and growing width is polynomial of that degree and is treated as the fan-out construct");
+
+    let zschema = build_z(|b| b);
+    let zsch = z_sch(&zschema);
+    let env = Env { psch: p_sch(), pworld: p_world(), zworld: gen_world(&zsch, &mut vcore::src::VecSrc::new(&[]), &WorldCfg::default()) };
+    let open = (ctx.open("C11-F1"), ctx.open("C11-F2"));
+    let timing = std::cell::RefCell::new(Timing::default());
+    let generous = Limits { depth: 100, complexity: 50, nesting: 300, directives: 5000 };
+
+    // the fixed ladders (5 sizes per family): evidence that does not depend on the seed
+    let t0 = Instant::now();
+    let mut count = 0;
+    for f in POLY_FAMILIES {
+        let top = f.cap();
+        let ps: Vec<usize> = (0..5).rev().map(|i| top >> i).collect();
+        for variant in 0..3 {
+            let c = ladder_case(&env, open, f, &ps, Knobs { w: 1 + variant, variant }, generous, &timing);
+            count += 1;
+            if ctx.check_case("ladders", c, serde_json::json!({"family": format!("{:?}", f), "variant": variant})) {
+                return;
+            }
+        }
+    }
+    ctx.enumerated("ladders", count, true, t0);
+
+    // random members of the polynomial families
+    let n_fam = ctx.tier.pick(1_500, 40_000);
+    ctx.stream("families", n_fam, 16, |s| {
+        let f = POLY_FAMILIES[s.choose(POLY_FAMILIES.len())];
+        let p0 = 1 + s.choose((f.cap() / 4).min(BASE_CAP));
+        let k = Knobs { w: 1 + s.choose(3), variant: s.choose(6) };
+        let l = Limits {
+            depth: *vcore::gens::pick(s, &[100, 3, 70]),
+            complexity: *vcore::gens::pick(s, &[50, 100_000, 1_000]),
+            nesting: *vcore::gens::pick(s, &[300, 8, 40]),
+            directives: *vcore::gens::pick(s, &[5000, 1, 100]),
+        };
+        ladder_case(&env, open, f, &[p0, 2 * p0, 4 * p0], k, l, &timing)
+    });
+
+    // random valid documents
+    let n_rand = ctx.tier.pick(6_000, 150_000);
+    let tcfg = TypedCfg { max_depth: 5, max_width: 5, ops: vec![OpKind::Query, OpKind::Mutation], ..TypedCfg::default() };
+    ctx.stream("random-documents", n_rand, 900, |s| {
+        let on_z = s.bool();
+        let sch = if on_z { zsch.clone() } else { gen_sch(s, &SchCfg::default()) };
+        let world = if on_z { env.zworld.clone() } else { gen_world(&sch, s, &WorldCfg { null_composite_items: false, ..WorldCfg::default() }) };
+        let mut td = gen_typed_doc(&sch, s, &tcfg);
+        let text = print_plain(&mut td.doc);
+        let l = Limits { depth: 1 + s.choose(8), complexity: 1 + s.choose(60), nesting: 1 + s.choose(16), directives: s.choose(3) };
+        let obs = if on_z {
+            exec_z(&world, &text, &td.vars, td.op_name.as_deref(), l)
+        } else {
+            match exec_dynamic(&sch, &world, &text, &td.vars, td.op_name.as_deref(), l) {
+                Ok(o) => o,
+                Err(e) => return Case::fail(text, e),
+            }
+        };
+        let inlined: u64 = td.doc.ops().map(|o| inlined_selections(&td.doc, &o.sel)).sum();
+        let smp = Sample { p: 1, size: text.len() as u64, work: obs.work, inlined, spreads: count_spreads(&td.doc) };
+        let rejected = !obs.errors.is_empty();
+        let rendered = format!("schema {}\nquery: {}\nvariables: {}\n{:?}\nbytes={} work={} written selections={} inlined selections={}", if on_z { "Z".to_string() } else { show_sch(&sch) }, text, vars_json(&td.vars), l, smp.size, smp.work, written_selections(&td.doc), inlined);
+        judge(open, rendered, &[smp])
+            .nontrivial(text.len() >= 512 && count_spreads(&td.doc) >= 2)
+            .class(if rejected { "rejected" } else { "executed" })
+            .class_if(td.stats.named_fragments > 0, "named-fragment")
+            .class_if(count_spreads(&td.doc) > td.stats.named_fragments as u64, "fragment-spread-twice")
+    });
+
+    // the fan-out chains: k spreads per level, n levels. With C11-F1 / C11-F2 open they are excluded from the
+    // streams above by construction and probed here (work must be exactly accounted for by the quirks); with both
+    // closed the same ladders are judged by the specification alone.
+    if open.0 {
+        ctx.excluded("C11-F1");
+    }
+    if open.1 {
+        ctx.excluded("C11-F2");
+    }
+    let t0 = Instant::now();
+    let mut count = 0;
+    for (k, ns) in [(2usize, vec![3usize, 4, 5, 6, 7, 8, 9, 10]), (3, vec![2, 3, 4, 5, 6]), (4, vec![2, 3, 4, 5])] {
+        for n in ns {
+            // n -> 2n levels; the witness of the property record is k=2, n=22 (not run: 2^22 selections per walker)
+            let c = ladder_case(&env, open, Family::FanOutChain, &[n, 2 * n], Knobs { w: k, variant: 0 }, generous, &timing).class("fan-out-chain");
+            count += 1;
+            if ctx.check_case("fan-out-chains", c, serde_json::json!({"spreads_per_level": k, "levels": n})) {
+                return;
+            }
+        }
+    }
+    ctx.enumerated("fan-out-chains", count, true, t0);
+
+    let t = timing.borrow();
+    ctx.note(
+        "secondary_timing",
+        serde_json::json!({"worst_parse_ns_per_byte": t.parse_ns_per_byte, "worst_parse_case": t.parse_worst, "worst_execute_ns_per_work_unit": t.exec_ns_per_work, "worst_execute_case": t.exec_worst,
+            "note": "wall-clock, not a verdict"}),
+    );
+    for f in POLY_FAMILIES {
+        ctx.floor(&format!("family-{:?}", f), 20);
+    }
+    ctx.floor("fan-out-chain", 10);
+    ctx.floor("rejected", 500);
+    ctx.floor("executed", 200);
+    ctx.floor("document>=4KiB", 100);
+}
+
+/// upper end of the base parameter of the random family members (keeps their documents below ~100 KiB)
+const BASE_CAP: usize = 64;
